@@ -395,6 +395,38 @@ class Ctx:
             done += 1
             if not tr.ok:
                 rejected += 1
+        if done and rejected == 0:
+            # none of the standard probes was rejected: the positions may have hit events the specification does not
+            # constrain (e.g. a chunk inside a long stream). Try harder before the specification is called vacuous: a run
+            # of consecutive events removed and field changes at twelve further positions, stopping at the first rejection.
+            extra = []
+            for k in range(1, 13):
+                i = min(n - 2, max(1, (n * k) // 13))
+                if k % 2:
+                    w = max(2, n // 50)
+                    extra.append(("drop-run", i, events[:i] + events[i + w:]))
+                else:
+                    e = events[i]
+                    if isinstance(e, dict):
+                        e2 = dict(e)
+                        for kk, vv in sorted(e.items()):
+                            if isinstance(vv, bool):
+                                continue
+                            if isinstance(vv, int):
+                                e2[kk] = vv + 7
+                            elif isinstance(vv, str):
+                                e2[kk] = vv + "~"
+                        extra.append(("fields", i, events[:i] + [e2] + events[i + 1:]))
+            for kind, i, ev in extra:
+                with open(tf, "w") as f:
+                    json.dump(ev, f, separators=(",", ":"))
+                tr = self.tlc(spec_subdir, module, cfg, extra_files=[tf], **kw)
+                if tr.timeout:
+                    continue
+                done += 1
+                if not tr.ok:
+                    rejected += 1
+                    break
         self.cov.setdefault("binding_probes", {})[module] = {"tampered_traces": done, "rejected": rejected,
                                                             "kinds": "one event removed at 25/50/75 %, one event duplicated, one recorded field changed at 33/66 %"}
         log("[tamper] %s: %d of %d tampered traces rejected" % (module, rejected, done))
